@@ -277,9 +277,10 @@ def queries(tier):
     H = lambda n, nm='x': ('hole', nm, n)
     hooks = [[], [('fail',)], [('name', '')], [('name', H(1))], [('ns', H(2))], [('ver', H(1))], [('sub', H(2))],
              [('qual', 'z', '')], [('qual', H(1, 'k'), H(1, 'v'))], [('qual', 'checksum', H(3 + deep))], [('qual', 'checksum', 'B:0A,a:')],
+             [('qual', 'checksum', '')], [('qual', 'checksum', H(1))], [('qual', 'checksum', ''), ('qual', 'a', '')],
              [('qual', 'k', ''), ('ver', H(1))], [('name', H(1)), ('fail',)]]
     inputs = [['pkg:', H(3 if th else 2, 'h'), '/n'], ['pkg:custom/', H(2, 'h')], ['pkg:custom/ns/n@1?k=', H(1, 'h'), '#s'], ['pkg:custom/n?', H(1, 'h'), '=', H(1, 'g')],
-              ['pkg:', H(4 + deep, 'h')]]
+              ['pkg:', H(4 + deep, 'h')], ['pkg:custom/n?z=1&checksum=A:', H(2, 'h')]]
     for conv_ok in (True, False):
         for hi, hook in enumerate(hooks):
             for parts in inputs:
@@ -353,10 +354,49 @@ def confirm(v, resp):
             valid = re.fullmatch(rb'[A-Za-z0-9.+-]+', bytes.fromhex(ts)) is not None
             if valid == o['disp_panics']:
                 return 'Display %s for the type string %r' % ('panics' if o['disp_panics'] else 'does not panic', bytes.fromhex(ts))
-    else:
-        # a hook that empties the name must lead to MissingRequiredField(Name)
-        pass
+    want = concrete_expectation(resp.get('pre'), [[e[0]] + [bytes.fromhex(x) for x in e[1:]] for e in hook])
+    if want is not None:
+        got = 'ok' if 'ok' in resp else resp.get('err')
+        if want == 'ok' and got != 'ok':
+            return 'refused with %s although what the hook left satisfies the generic checks' % got
+        if want != 'ok' and got == 'ok':
+            return 'a PURL is produced although %s' % want
+        if want == 'Hook' and got != 'Hook':
+            return 'hook error not returned unchanged: %r' % got
     return None
+
+
+def concrete_expectation(pre, hook):
+    """'ok' | reason for refusal | None (not determined here), from the parts the hook was given and its edits, all concrete"""
+    import re
+    if not pre:
+        return None
+    f = {k: bytes.fromhex(pre[k]) for k in ('ns', 'name', 'ver', 'sub')}
+    quals = {bytes.fromhex(k): bytes.fromhex(v) for k, v in pre['quals']}
+    for e in hook:
+        if e[0] == 'fail':
+            return 'Hook'
+        if e[0] in f:
+            f[e[0]] = e[1]
+        elif e[0] == 'qual':
+            if not re.fullmatch(rb'[A-Za-z0-9._-]+', e[1]):
+                return 'Hook'
+            quals[e[1].lower()] = e[2]
+    if f['name'] == b'':
+        return 'the hook left an empty name'
+    ck = quals.get(b'checksum')
+    if ck:
+        algs = []
+        for ent in ck.split(b','):
+            if b':' not in ent:
+                return 'the hook left a malformed checksum'
+            a, h = ent.rsplit(b':', 1)
+            if any(x >= 0x80 for x in a):
+                return None          # non-ASCII algorithm names: lower-casing is not re-done here
+            if len(h) % 2 or not re.fullmatch(rb'[0-9A-Fa-f]*', h) or a.lower() in algs:
+                return 'the hook left a malformed checksum'
+            algs.append(a.lower())
+    return 'ok'
 
 
 def finding_role(v, resp):
